@@ -157,6 +157,10 @@ impl Ctx {
                 ("panic".to_string(), Some(format!("panic: {msg}")))
             }
         };
+        // one line per case in every file: no line breaks of any kind inside an answer or an oracle message
+        let one_line = |t: String| -> String { t.chars().map(|c| if c.is_control() || c == '\u{2028}' || c == '\u{2029}' { ' ' } else { c }).collect() };
+        let out = one_line(out);
+        let orc = orc.map(one_line);
         let kind = out.split(' ').take(if out.starts_with("err") { 2 } else { 1 }).collect::<Vec<_>>().join(" ");
         self.count(&format!("impl:{op}:{kind}"));
         writeln!(self.cases, "{line}").unwrap();
